@@ -26,6 +26,7 @@ type SimCase struct {
 	TwinSrc string
 	Labels  map[string]string // C14: label renaming
 	Mutated string            // MUT: description of the mutation applied ("" = none)
+	RenInfo *gen.Renaming
 }
 
 type Violation struct {
@@ -95,6 +96,10 @@ func DrawSimCase(ch Chooser, prop string) *SimCase {
 			modes = allModes
 		}
 		c.Runs = []sim.Config{drawRunConfig(ch, modes, false)}
+	case "C14":
+		twin, info := gen.Rename(c.Prog, ch.Intn)
+		c.Twin, c.TwinSrc, c.Labels, c.RenInfo = twin, twin.Text(), info.Labels, info
+		c.Runs = []sim.Config{drawRunConfig(ch, polarized, false)}
 	default:
 		panic("DrawSimCase: " + prop)
 	}
@@ -107,6 +112,7 @@ type CaseStats struct {
 	RejectReason string
 	RefInconcl   string
 	Runs         []*sim.Result
+	TwinRuns     []*sim.Result
 	Inconclusive map[string]int
 	OtherProps   map[string]int // violations of properties that are not armed in this check
 }
@@ -280,6 +286,13 @@ func ExecSimCase(t *testing.T, c *SimCase) ([]Violation, *CaseStats, []string) {
 		if !res.Accepted {
 			st.Rejected = true
 			st.RejectReason = res.ParseErr + res.TypeErr
+			if c.Prop == "C14" && c.Twin != nil {
+				// verdict half: a rejected original must have a rejected renaming
+				tw := sim.Run(t, c.TwinSrc, cfg)
+				if tw.Accepted {
+					return []Violation{{Prop: "C14", Class: "verdict", Mode: modeName[cfg.Mode], Msg: trunc("the original is rejected ("+st.RejectReason+"), its renaming is accepted", 400)}}, st, nil
+				}
+			}
 			return nil, st, nil
 		}
 		st.Runs = append(st.Runs, res)
@@ -305,6 +318,34 @@ func ExecSimCase(t *testing.T, c *SimCase) ([]Violation, *CaseStats, []string) {
 		}
 		if !c01 {
 			trouble = append(trouble, "REF failed on an accepted generated program: "+ri.why)
+		}
+	}
+	// ---- C14: the renamed twin behaves like the original (same configuration, same schedule vector)
+	if c.Prop == "C14" && c.Twin != nil && len(st.Runs) > 0 {
+		cfg := c.Runs[0]
+		tw := sim.Run(t, c.TwinSrc, cfg)
+		st.TwinRuns = append(st.TwinRuns, tw)
+		for _, m := range tw.ModelErrors {
+			trouble = append(trouble, m)
+		}
+		if len(trouble) > 0 {
+			return nil, st, trouble
+		}
+		base := st.Runs[0]
+		mk := func(class, msg string) {
+			vs = append(vs, Violation{Prop: "C14", Class: class, Run: 0, Mode: modeName[cfg.Mode], Msg: trunc(msg, 400)})
+		}
+		switch {
+		case !tw.Accepted:
+			mk("verdict", "the original is accepted, its renaming is rejected: "+tw.ParseErr+tw.TypeErr)
+		case base.Budget || tw.Budget:
+			st.Inconclusive["step_budget"]++
+		case base.Complete() != tw.Complete():
+			mk("completion", fmt.Sprintf("original complete=%v (panics %d), renaming complete=%v (panics %d: %s)", base.Complete(), len(base.Errors), tw.Complete(), len(tw.Errors), firstErr(tw)))
+		case !eqStrings(mapLabels(base.Prints, c.Labels), tw.PrintMultiset()):
+			mk("prints", fmt.Sprintf("original printed %v (renamed labels: %v), renaming printed %v", base.PrintMultiset(), mapLabels(base.Prints, c.Labels), tw.PrintMultiset()))
+		case stuckCount(base) != stuckCount(tw):
+			mk("completion", fmt.Sprintf("original leaves %d tasks waiting to receive, renaming leaves %d", stuckCount(base), stuckCount(tw)))
 		}
 	}
 	// ---- C03: all runs of one program agree (print multiset + completion)
@@ -335,6 +376,13 @@ func ExecSimCase(t *testing.T, c *SimCase) ([]Violation, *CaseStats, []string) {
 		}
 	}
 	return vs, st, nil
+}
+
+func firstErr(r *sim.Result) string {
+	if len(r.Errors) > 0 {
+		return r.Errors[0].Msg
+	}
+	return ""
 }
 
 func stuckCount(r *sim.Result) int {
